@@ -179,6 +179,23 @@ def main(path):
     C = CONTRACTS[rp["contract"]]
     ns = build_ns()
     out = dict(replay=path, contract=rp["contract"], obligation=rp["obligation"])
+    if rp.get("bounded_index") is not None:
+        os.environ["PYVC_TIER"] = rp.get("tier", "quick")
+        os.environ["PYVC_SEED"] = str(rp.get("seed", 0))
+        gen = C.native_samples()
+        if isinstance(gen, tuple):
+            gen = gen[1]
+        for idx, sample in enumerate(gen):
+            if idx == rp["bounded_index"]:
+                obs = evaluate(C, dict(sample))
+                out["observed"] = obs
+                out["sample"] = {k: repr(v)[:300] for k, v in sample.items()}
+                out["status"] = "reproduced" if obs["failed_clauses"] else "not-reproduced"
+                print(json.dumps(out, default=str))
+                return 0 if obs["failed_clauses"] else 1
+        out["status"] = "sample-index-not-found"
+        print(json.dumps(out))
+        return 2
     if not rp.get("witness"):
         out["status"] = "no-witness"
         print(json.dumps(out))
